@@ -249,6 +249,9 @@ func (e *Engine) Abstract(m *protocol.Message, cls string) *AMsg {
 	return a
 }
 
+// PostOf reads the observable state of an instance.
+func (e *Engine) PostOf(inst party.ID) Post { return e.post(inst, e.Parties[inst]) }
+
 func (e *Engine) post(inst party.ID, p *Party) Post {
 	st := p.Status()
 	po := Post{St: st.St, Ek: "none", Culp: []string{}}
